@@ -103,7 +103,11 @@ def run(repo: Repo, chk: Check, thorough: bool = False) -> None:
     # ------------------------------------------------------------------ R16.3
     mn = repo.func('pydoctor.driver.main')
     cfgm = CFG(mn)
-    sets = [n for n in mn.walk() if isinstance(n, ast.Assign) and any(isinstance(t, ast.Name) and t.id == 'exitcode' for t in n.targets)]
+    statusv = {n.value.id for n in mn.walk() if isinstance(n, ast.Return) and isinstance(n.value, ast.Name)}
+    if len(statusv) != 1:
+        raise AnalysisError(f'driver.main: the returned status variable is not unique ({statusv})')
+    sv = next(iter(statusv))
+    sets = [n for n in mn.walk() if isinstance(n, ast.Assign) and any(isinstance(t, ast.Name) and t.id == sv for t in n.targets)]
     by_val: Dict[object, List[ast.Assign]] = {}
     for s in sets:
         if isinstance(s.value, ast.Constant):
@@ -114,7 +118,8 @@ def run(repo: Repo, chk: Check, thorough: bool = False) -> None:
     ok2 = bool(twos)
     for s in twos:
         conds = [norm(p.test) for p in parents(s) if isinstance(p, ast.If)]
-        if not any('parse_errors' in c or 'docstring_syntax_errors' in c for c in conds):
+        pe = {t.id for n in mn.walk() if isinstance(n, ast.Assign) and 'parse_errors' in norm(n.value) for t in n.targets if isinstance(t, ast.Name)}
+        if not any('parse_errors' in c or any(v == c or f'{v} ' in c or f' {v}' in c for v in pe) for c in conds):
             ok2 = False
     chk.ob('R16.3', 'driver.main :: status 2 exactly under recorded parse errors', ok2 and len(twos) == 2,
            "parse_errors['docstring'] non-empty, or any(parse_errors.values())" if ok2 else 'exit status 2 is set under another condition', mn.loc)
@@ -123,14 +128,14 @@ def run(repo: Repo, chk: Check, thorough: bool = False) -> None:
     if ok3:
         conds = [p.test for p in parents(threes[0]) if isinstance(p, ast.If)]
         ok3 = len(conds) == 1 and isinstance(conds[0], ast.BoolOp) and isinstance(conds[0].op, ast.And) and \
-            sorted(norm(v) for v in conds[0].values) == sorted(['system.violations', 'options.warnings_as_errors'])
+            sorted(v.attr for v in conds[0].values if isinstance(v, ast.Attribute)) == ['violations', 'warnings_as_errors'] and len(conds[0].values) == 2
         # 3 overrides 2: its statement comes after every `exitcode = 2` on all paths that reach it
         ok3 = ok3 and all(id(cfgm.stmt_of(threes[0])) in cfgm.reachable(t, no_exc=True) and id(t) not in cfgm.reachable(cfgm.stmt_of(threes[0]), no_exc=True) for t in twos)
     chk.ob('R16.3', 'driver.main :: status 3 iff violations and --warnings-as-errors, overriding 2', ok3,
            'if system.violations and options.warnings_as_errors: exitcode = 3 (after the parse-error branch)' if ok3 else
            'exit status 3 is not set exactly under `system.violations and options.warnings_as_errors`, or can be overwritten by 2', mn.loc)
     rets = [n for n in mn.walk() if isinstance(n, ast.Return)]
-    ok = bool(rets) and all(norm(r.value) == 'exitcode' for r in rets)
+    ok = bool(rets) and all(norm(r.value) == sv for r in rets)
     chk.ob('R16.3', 'driver.main :: returns the computed status', ok, 'return exitcode', mn.loc)
     mk = [c for c in calls_in(mn) if call_name(c) == 'make']
     ok = bool(mk) and all(cfgm.dominates(cfgm.stmt_of(mk[0]), s, no_exc=True) for s in twos + threes)
